@@ -882,6 +882,7 @@ def run_reuse(ctx, only=None):
     # chunks under a CPU-time limit of the child (the unchanged tree needs well under a second per chunk)
     CPU = ctx.pick(90, 300)
     for k in range(0, len(cases), 8):
+        if hist["no-termination"] >= 2: hist["chunks-skipped-after-two-non-terminating-ones"] += 1; continue
         chunk = cases[k:k + 8]
         rc, out, err = vf.sh(["bash", "-c", "ulimit -t %d; exec %s" % (CPU, h)], input="\n".join(lines[k:k + 8]) + "\n", timeout=20 * CPU, env=ctx.san_env())
         for l in out.split("\n"):
